@@ -31,7 +31,10 @@ DEFINE_RE = re.compile(
     r"({}|\({}(?:,\s*{})*\))\s+(.*)\Z".format(NAME, NAME, NAME),
     re.UNICODE)
 SUBST_RE = re.compile(r"\s*(?:(text|structure)\s+)?(.*)\Z", re.S | re.UNICODE)
-ATTR_RE = re.compile(r"\s*([^\s{}'\"]+)\s+([^\s].*)\Z", re.S | re.UNICODE)
+# (a first word that ends in a colon is the type prefix of a dictionary
+# expression, as in ``python: {...}``, and not an attribute name)
+ATTR_RE = re.compile(
+    r"\s*([^\s{}'\"]*[^\s{}'\":])\s+([^\s].*)\Z", re.S | re.UNICODE)
 
 ENTITY_RE = re.compile(r'(&(#?)(x?)(\d{1,5}|\w{1,8});)')
 
